@@ -603,13 +603,13 @@ def parseReturn (ns : Str) (x : Xml) : Except Err Return :=
 
 /-- which `ast` class the reader instantiates (`klass` of `_parse_function_common`) -/
 inductive Klass where
-  | function | callback | vfunction
+  | function | callback | vfunction | signal
   deriving Repr, DecidableEq, Inhabited
 
 structure Callable where
   klass : Klass
   /-- element name: function, function-inline, method, method-inline, constructor (Function),
-      virtual-method (VFunction), callback (Callback) -/
+      virtual-method (VFunction), callback (Callback), glib:signal (Signal) -/
   tag : String
   name : Str
   retval : Return
@@ -633,6 +633,12 @@ structure Callable where
   getProperty : Option Str
   invoker : Option Str       -- VFunction.invoker
   ctype : Option Str         -- Callback.ctype
+  when : Option Str := none  -- Signal.when, no_recurse, detailed, action, no_hooks, emitter
+  noRecurse : Bool := false
+  detailed : Bool := false
+  action : Bool := false
+  noHooks : Bool := false
+  emitter : Option Str := none
   deriving Repr, DecidableEq, Inhabited
 
 def mapMExcept (f : α → Except Err β) : List α → Except Err (List β)
@@ -646,7 +652,8 @@ def mapMExcept (f : α → Except Err β) : List α → Except Err (List β)
 def paramNames (ps : List Param) : List (Option Str) := ps.map (·.argname)
 
 /-- `_write_function_common` / `_write_vfunc` / `_write_callback`: the attributes handed to
-    `_write_callable` as `extra_attrs`, in order -/
+    `_write_callable` as `extra_attrs`, in order; for a signal the attributes `_write_signal` puts
+    between `name` and `version` -/
 def extraAttrs (c : Callable) : List (String × Option Str) :=
   match c.klass with
   | .function => [
@@ -658,6 +665,23 @@ def extraAttrs (c : Callable) : List (String × Option Str) :=
       ("glib:get-property", c.getProperty)]
   | .vfunction => [("invoker", keepTruthy c.invoker)]
   | .callback => [("c:type", if c.ctype = some c.name then none else c.ctype)]
+  | .signal => [
+      ("when", keepTruthy c.when),
+      ("no-recurse", optIf c.noRecurse sOne),
+      ("detailed", optIf c.detailed sOne),
+      ("action", optIf c.action sOne),
+      ("no-hooks", optIf c.noHooks sOne),
+      ("emitter", keepTruthy c.emitter)]
+
+/-- what `_write_callable` appends after `_append_node_generic` (`_append_throws`, the async attributes);
+    `_write_signal` appends nothing -/
+def callableTail (c : Callable) : List (String × Option Str) :=
+  match c.klass with
+  | .signal => []
+  | _ => [("throws", optIf c.throws sOne),
+          ("glib:finish-func", c.finishFunc),
+          ("glib:sync-func", c.syncFunc),
+          ("glib:async-func", c.asyncFunc)]
 
 /-- `if callable.instance_parameter: self._write_parameter(callable, callable.instance_parameter, 'instance-parameter')` -/
 def writeInst (ns : Str) (names : List (Option Str)) : Option Param → Except Err (List Xml)
@@ -665,7 +689,8 @@ def writeInst (ns : Str) (names : List (Option Str)) : Option Param → Except E
   | some p => (writeParam ns names "instance-parameter" p).map (fun x => [x])
 
 /-- `GIRWriter._write_callable(callable, tag_name, extra_attrs)` with `_append_version`,
-    `_append_node_generic`, `_append_throws`, `_write_generic`, `_write_return_type`, `_write_parameters` -/
+    `_append_node_generic`, `_append_throws`, `_write_generic`, `_write_return_type`, `_write_parameters`;
+    and `GIRWriter._write_signal(signal)`, which has the same body without the throws / async attributes -/
 def writeCallable (ns : Str) (c : Callable) : Except Err Xml := do
   let names := paramNames c.params
   let dk ← writeDocs c.docs
@@ -679,11 +704,7 @@ def writeCallable (ns : Str) (c : Callable) : Except Err Xml := do
       ("introspectable", optIf (c.skip || !c.introspectable) sZero),
       ("deprecated", optIf (truthy c.deprecated || truthy c.docs.deprecatedDoc) sOne),
       ("deprecated-version", keepTruthy c.deprecated),
-      ("stability", keepTruthy c.stability),
-      ("throws", optIf c.throws sOne),
-      ("glib:finish-func", c.finishFunc),
-      ("glib:sync-func", c.syncFunc),
-      ("glib:async-func", c.asyncFunc)])) (dk ++ [ret] ++ paramsKid) none)
+      ("stability", keepTruthy c.stability)] ++ callableTail c)) (dk ++ [ret] ++ paramsKid) none)
 
 /-- the second loop over `<parameter>` elements in `_parse_function_common`: array length,
     `closure`, `destroy` (indices into the parameter list) -/
@@ -713,7 +734,8 @@ def parseInst (ns : Str) (pk : List Xml) : Except Err (Option Param) :=
   | none => .ok none
 
 /-- `GIRParser._parse_function_common(node, klass)` (+ `func.invoker = method.get('invoker')` of
-    `_parse_object_interface` for virtual methods) -/
+    `_parse_object_interface` for virtual methods).  An `ast.Signal` is constructed without `throws`
+    (`Callable.__init__(self, name, retval, parameters, False)`). -/
 def parseCallable (ns : Str) (klass : Klass) (x : Xml) : Except Err Callable :=
   let a := x.attrs
   match attrGet "name" a with
@@ -746,7 +768,8 @@ def parseCallable (ns : Str) (klass : Klass) (x : Xml) : Except Err Callable :=
                 | .error e => .error e
                 | .ok docs => .ok {
                     klass := klass, tag := x.tag, name := name, retval := { ret0 with ty := rty },
-                    params := ps, instanceParam := inst, throws := attrGet "throws" a == some sOne,
+                    params := ps, instanceParam := inst,
+                    throws := if klass = .signal then false else attrGet "throws" a == some sOne,
                     version := keepTruthy (attrGet "version" a), skip := parseFlag false (attrGet "skip" a),
                     introspectable := parseFlag true (attrGet "introspectable" a),
                     deprecated := keepTruthy (attrGet "deprecated-version" a),
@@ -761,7 +784,13 @@ def parseCallable (ns : Str) (klass : Klass) (x : Xml) : Except Err Callable :=
                     setProperty := if klass = .function then attrGet "glib:set-property" a else none,
                     getProperty := if klass = .function then attrGet "glib:get-property" a else none,
                     invoker := if klass = .vfunction then attrGet "invoker" a else none,
-                    ctype := if klass = .callback then attrGet "c:type" a else none }
+                    ctype := if klass = .callback then attrGet "c:type" a else none,
+                    when := if klass = .signal then attrGet "when" a else none,
+                    noRecurse := if klass = .signal then (attrGet "no-recurse" a).getD sZero == sOne else false,
+                    detailed := if klass = .signal then (attrGet "detailed" a).getD sZero == sOne else false,
+                    action := if klass = .signal then (attrGet "action" a).getD sZero == sOne else false,
+                    noHooks := if klass = .signal then (attrGet "no-hooks" a).getD sZero == sOne else false,
+                    emitter := if klass = .signal then attrGet "emitter" a else none }
 
 /-! ### what a read/write cycle preserves: canonical forms and the executable side conditions
 
@@ -849,13 +878,17 @@ def canonCallable (c : Callable) : Callable :=
            introspectable := c.introspectable && !c.skip, deprecated := keepTruthy c.deprecated,
            stability := keepTruthy c.stability, docs := canonDocs c.docs, shadowedBy := keepTruthy c.shadowedBy,
            shadows := if truthy c.shadowedBy then none else keepTruthy c.shadows,
-           invoker := keepTruthy c.invoker, ctype := if c.ctype = some c.name then none else c.ctype }
+           invoker := keepTruthy c.invoker, ctype := if c.ctype = some c.name then none else c.ctype,
+           when := keepTruthy c.when, emitter := keepTruthy c.emitter }
 
-/-- fields that exist only on one of the three classes are unset on the others -/
+/-- fields that exist only on one of the four classes are unset on the others; a signal does not throw and
+    has no async attributes (`_write_signal` does not write them) -/
 def klassFields (c : Callable) : Bool :=
   (c.klass == .function || (c.symbol.isNone && c.shadowedBy.isNone && c.shadows.isNone && c.movedTo.isNone
       && c.setProperty.isNone && c.getProperty.isNone))
   && (c.klass == .vfunction || c.invoker.isNone) && (c.klass == .callback || c.ctype.isNone)
+  && (if c.klass == .signal then !c.throws && c.finishFunc.isNone && c.syncFunc.isNone && c.asyncFunc.isNone
+      else c.when.isNone && !c.noRecurse && !c.detailed && !c.action && !c.noHooks && c.emitter.isNone)
 
 def wfCallable (ns : Str) (c : Callable) : Bool :=
   wfReturn ns c.retval && c.params.all (wfParam ns) && wfDocs true c.docs && klassFields c
